@@ -62,8 +62,7 @@ func (f *WithInputFromOctets) Call(s *slip.Scope, args slip.List, depth int) (re
 		slip.TypePanic(s, depth, "args[0]", args[0], "symbol")
 	}
 	d2 := depth + 1
-	args[1] = slip.EvalArg(s, args, 1, d2)
-	data := octetsOf(args[1])
+	data := octetsOf(slip.EvalArg(s, args, 1, d2))
 
 	s2 := s.NewScope()
 	s2.Let(sym, slip.NewInputStream(bytes.NewReader(data)))
